@@ -171,11 +171,17 @@ def runQueue0 (_prop : String) (f : List String) (obsS : String) : Verdict :=
     let model := Queue0.modelRun hh (hops.zip refused)
     let ip := project _prop impl
     let mp := project _prop model
-    -- the property predicates, which are capacity-agnostic apart from the capacity clause (covered by `over`
-    -- above): run with "no limit"
+    -- the property predicates, which are capacity-agnostic apart from the capacity / refusal clauses of the
+    -- emit (capacity 0: the `over` clause above): run with "no limit", refused emits left out
     let v := match v with
       | some x => some x
-      | none => match ckHistory none hh {} hops impl with
+      | none =>
+        -- a refusal is legitimate at capacity 0 whenever the worker is not waiting (not steered by the
+        -- harness) and changes nothing: such emits are left out before the predicates run
+        let kept := (hops.zip impl).filter fun (op, o) => match op, o.res with
+          | .emit _ _ _, .err _ => !o.evs.isEmpty
+          | _, _ => true
+        match ckHistory none hh {} (kept.map (·.1)) (kept.map (·.2)) with
         | .ok _ => none
         | .error e => some (e.prop, "capacity 0: " ++ e.clause)
     let tags := ["queue-capacity-0"] ++ (opTags hops model).map (· ++ "-cap0") ++
